@@ -122,4 +122,4 @@ def replay(path):
 MANIFEST = dict(engine='mc + rt', level='model_checking',
   technique='explicit-state exploration of the real IRCServer with every map-iteration choice point (overlaid runtime) and the wall clock (overlaid time.Now) enumerated per transition; cross-process digest comparison; conformance of the glue mirror against the real FSM glue',
   text='For every transition of the bounded exploration the entry is re-executed from scratch once per alternative start position of every map iteration it performs (all rotations the runtime can produce for maps <=8 entries), once with the clock shifted by 400 days, and in a second process with a different environment; reply ids, bytes, order, recipient sets and the complete canonical state must agree.',
-  note='Bounds: <=3 clients + <=2 links, one deviating choice point per transition (two in thorough). Trusted: the overlaid runtime behaves like the stock one apart from the three replaced rand() uses. Also: every transition once as on the node that received the POSTs (handler-side ThrottleUntil), with another server start time for the shifted replica, twice undeviated in one process (process-global state), and with the goroutine count compared around Apply.')
+  note='Bounds: <=3 clients + <=2 links, one deviating choice point per transition (two in thorough). Trusted: the overlaid runtime behaves like the stock one apart from the three replaced rand() uses. Also: every transition once as on the node that received the POSTs (handler-side ThrottleUntil), once as on the leader (ExpireSessions called between all entries), the two worker processes 25 h apart in local time, with another server start time for the shifted replica, twice undeviated in one process (process-global state), and with the goroutine count compared around Apply.')
